@@ -50,9 +50,12 @@ var tmpls = []string{
 
 // Env holds the objects of one execution.
 type Env struct {
-	E3 []*v3.Environmental // receiver per thread slot (all the same pointer in shared mode)
-	E2 []*v2.Environmental
+	E3  []*v3.Environmental // receiver per thread slot (all the same pointer in shared mode)
+	E2  []*v2.Environmental
+	Rep []*report.EnvironmentalReport // report per thread slot (one object in shared mode), already exported once
 }
+
+const warmTemplate = "{{.Version}} warm-up {{.BaseScore}}"
 
 // NewEnv decodes the receivers: shared => every slot uses one object.
 func NewEnv(slots int, shared bool) *Env {
@@ -77,6 +80,23 @@ func NewEnv(slots int, shared bool) *Env {
 		e.E3, e.E2 = append(e.E3, m3), append(e.E2, m2)
 	}
 	return e
+}
+
+// WarmReports builds the report objects and exports each once with a third template text, so
+// that whatever an export remembers (a parsed template, a buffer) is in its "used before" state
+// when the concurrent phase starts.
+func (e *Env) WarmReports(shared bool) {
+	for i := range e.E3 {
+		if shared && i > 0 {
+			e.Rep = append(e.Rep, e.Rep[0])
+			continue
+		}
+		rep := report.NewEnvironmental(e.E3[i], report.WithOptionsLanguage(language.Japanese))
+		if r, err := rep.ExportWithString(warmTemplate); err == nil {
+			io.ReadAll(r)
+		}
+		e.Rep = append(e.Rep, rep)
+	}
 }
 
 // Observe renders the shared objects' observables (for the end-state check).
@@ -165,6 +185,24 @@ var Ops = []Op{
 			return export(report.NewEnvironmental(e.E3[slot], report.WithOptionsLanguage(language.Japanese)), slot)
 		}
 	}},
+	{"v3 report + ExportWithString, same template in every thread", true, func(e *Env, slot int) func() string {
+		return func() string {
+			return export(report.NewEnvironmental(e.E3[slot], report.WithOptionsLanguage(language.Japanese)), 1)
+		}
+	}},
+	{"v3 ExportWithString on a report built before, same template in every thread", true, func(e *Env, slot int) func() string {
+		return func() string { return export(e.Rep[slot], 2) }
+	}},
+	{"v3 ExportWith(reader) on a report built before, one template per thread", true, func(e *Env, slot int) func() string {
+		return func() string {
+			r, err := e.Rep[slot].ExportWith(strings.NewReader(tmpls[slot%len(tmpls)]))
+			if err != nil {
+				return "error: " + err.Error()
+			}
+			b, _ := io.ReadAll(r)
+			return string(b)
+		}
+	}},
 	{"v2 decode accepted", false, func(e *Env, slot int) func() string {
 		return func() string {
 			m, err := v2.NewEnvironmental().Decode(vec2[slot%len(vec2)])
@@ -208,6 +246,12 @@ type Scenario struct {
 // Setup builds the fresh objects and thread bodies of one execution.
 func (s Scenario) Setup() (*Env, []func() string) {
 	e := NewEnv(len(s.Ops), s.Shared)
+	for _, oi := range s.Ops {
+		if strings.Contains(Ops[oi].Name, "Export") {
+			e.WarmReports(s.Shared)
+			break
+		}
+	}
 	var bodies []func() string
 	for slot, oi := range s.Ops {
 		bodies = append(bodies, Ops[oi].Make(e, slot))
@@ -249,6 +293,7 @@ func Triples() []Scenario {
 		{"v3 decode || v2 decode || v3 decode rejected [distinct objects]", []int{ix("v3 decode accepted"), ix("v2 decode accepted"), ix("v3 decode rejected")}, false},
 		{"v3 export || v3 export || v3 report(en) [distinct objects]", []int{ix("v3 report + ExportWithString"), ix("v3 report + ExportWithString"), ix("v3 report.NewEnvironmental(en)")}, false},
 		{"v2 Score || v2 Encode/String || v2 decode [shared object]", []int{ix("v2 Score"), ix("v2 Encode/String"), ix("v2 decode accepted")}, true},
+		{"v3 export on one report, same template, three threads [shared object]", []int{ix("v3 ExportWithString on a report built before, same template in every thread"), ix("v3 ExportWithString on a report built before, same template in every thread"), ix("v3 ExportWith(reader) on a report built before, one template per thread")}, true},
 	}
 }
 
